@@ -366,7 +366,10 @@ def _tiny_pipelines(ctx, Ps):
     """libraries with ONE function (one-row stage files: F16) and with one unique of two functions: all four stages, 1 and several ranks"""
     import numpy as np, json
     n = 0
-    for tag, basis, comp in (("u1", [["x"], [ctx.rng.choice(["inv", "exp"])], ["+"]], 1), ("a1", [["a"], [], [ctx.rng.choice(["-", "/"])]], 3)):
+    for tag, basis, comp in (("u1", [["x"], [ctx.rng.choice(["inv", "exp"])], ["+"]], 1), ("a1", [["a"], [], [ctx.rng.choice(["-", "/"])]], 3),
+                             # N = 0: a basis without unary operators has no tree of even complexity; generation completes and
+                             # writes an EMPTY library, which the property's "any N >= 0" covers (F18)
+                             ("e0", [["x", "a"], [], [ctx.rng.choice(["+", "*"]), "-"]], 2)):
         lib = libgen.generate(ctx, "verif_c14%s" % tag, [comp], P=1, basis=basis, copy="c14_tiny_%s" % tag)
         if not lib["ok"]:
             ctx.disagree("pipeline:generation", "could not generate the single-function library %r: %s" % (basis, lib["res"]["error"]))
@@ -381,7 +384,12 @@ def _tiny_pipelines(ctx, Ps):
                                     env_extra={"ESR_VERIF_BASIS": json.dumps(basis)})
             n += 1
             ctx.case(("tiny-pipeline", tag, P), nontrivial=True)
-            rp = dict(kind="tiny", P=P)
+            rp = dict(kind="tiny", P=P, tag=tag, basis=basis, comp=comp)
+            if not r["ok"] and nall == 0:
+                ctx.fail("fitting-stage-incomplete:empty-library:P=%d" % P, "fitting stages on the EMPTY library that generation writes for basis %r at complexity %d "
+                         "(no tree of that complexity exists; N = 0) on %d ranks do not complete on every rank: %s %s %s" % (
+                             basis, comp, P, r["res"]["error"], r["res"]["exit_codes"], fitlib.traceback_tail(r)), rp)
+                continue
             if not r["ok"]:
                 ctx.fail("fitting-stage-incomplete:single-function:P=%d" % P, "fitting stages on a library with %d unique / %d functions (basis %r, n=%d) on %d ranks do not complete "
                          "on every rank: %s %s %s" % (nuniq, nall, basis, comp, P, r["res"]["error"], r["res"]["exit_codes"], fitlib.traceback_tail(r)), rp)
@@ -389,6 +397,8 @@ def _tiny_pipelines(ctx, Ps):
             for name, want in (("negloglike_comp%d.dat" % comp, nuniq), ("codelen_comp%d_deriv.dat" % comp, nuniq), ("derivs_comp%d.dat" % comp, nuniq),
                                ("codelen_matches_comp%d.dat" % comp, nall)):
                 a = np.atleast_2d(np.loadtxt(os.path.join(r["out_dir"], name)))
+                if a.size == 0:
+                    a = a.reshape(0, 1)
                 if a.shape[0] != want:
                     ctx.fail("stage-rows:%s:single-function:P=%d" % (name.split("_comp")[0], P), "%s written by %d ranks has %d rows for %d functions" % (name, P, a.shape[0], want), rp)
             fin = [l for l in open(os.path.join(r["out_dir"], "final_%d.dat" % comp)).read().splitlines() if l.strip()]
@@ -448,9 +458,11 @@ def replay(ctx, data):
     if rp["kind"] == "tiny":
         c2 = common.Ctx("C14", "quick", 0); c2.tmp = ctx.tmp; c2.stage = ctx.stage; c2.rng = ctx.rng
         _tiny_pipelines(c2, [rp["P"]])
-        for f in c2.failures:
+        # only the library this replay is about (older replay files carry no tag: the single-function libraries)
+        fl = [f for f in c2.failures if (f["replay"].get("tag") == rp["tag"] if "tag" in rp else f["replay"].get("tag") != "e0")]
+        for f in fl:
             print(f["what"])
-        return not c2.failures
+        return not fl
     if rp["kind"] == "stage":
         return stages_corr.replay(ctx, rp)
     if rp["kind"] == "dirtrace":
